@@ -767,7 +767,9 @@ func (g *generator) enter() {
 	g.storeLengths()
 }
 
-func (g *generator) enterNextFinallyFrame() (canContinue bool) {
+// enterNextFinallyFrame returns a non-nil exception if closing an iterator has thrown and the exception was not caught
+// by the body. In this case the stacks have been unwound to the marker frame, as handleThrow() does.
+func (g *generator) enterNextFinallyFrame() (canContinue bool, ex *Exception) {
 	vm := g.vm
 	callStackLen := len(vm.callStack)
 
@@ -776,11 +778,13 @@ func (g *generator) enterNextFinallyFrame() (canContinue bool) {
 		if int(tf.callStackLen) != callStackLen { // have we breached the function boundary?
 			break
 		}
-		ex := vm.restoreStacks(tf.iterLen, tf.refLen)
+		ex = vm.restoreStacks(tf.iterLen, tf.refLen)
 		if ex != nil {
-			vm.throw(ex)
-			return true
+			// the exception replaces the pending return and is thrown at the current position of the body
+			ex = g.propagate(vm.handleThrow(ex))
+			return ex == nil, ex
 		}
+		tf = &vm.tryStack[len(vm.tryStack)-1] // closing the iterators may have reallocated the try stack
 		if tf.finallyPos >= 0 {
 			vm.sp = int(tf.sp)
 			vm.stash = tf.stash
@@ -789,7 +793,7 @@ func (g *generator) enterNextFinallyFrame() (canContinue bool) {
 			tf.catchPos = tryPanicMarker
 			tf.finallyPos = -1
 			tf.finallyRet = -2 // -1 would cause it to continue after leaveFinally
-			return true
+			return true, nil
 		}
 		vm.popTryFrame()
 	}
@@ -827,8 +831,12 @@ func (g *generator) step() (res Value, resultType resultType, ex *Exception) {
 			}
 
 			if vm.prg != nil && vm.pc == -2 { // normal exit from finally
-				if g.enterNextFinallyFrame() {
+				var canContinue bool
+				if canContinue, ex = g.enterNextFinallyFrame(); canContinue {
 					continue
+				}
+				if ex != nil {
+					return
 				}
 
 				// All finally blocks have exited without result
@@ -879,10 +887,26 @@ func (g *generator) enterNext() {
 // the saved context, as the normal path does, before propagating further.
 func (g *generator) leaveOnPanic() {
 	if x := recover(); x != nil {
-		g.vm.popTryFrame()
-		g.vm.popCtx()
+		// handleThrow may have stopped at the frame of a finally block that was entered by return() instead
+		vm := g.vm
+		tf := &vm.tryStack[g.tryStackLen-1]
+		vm.dropStacks(tf.iterLen, tf.refLen)
+		vm.callStack = vm.callStack[:tf.callStackLen]
+		vm.tryStack = vm.tryStack[:g.tryStackLen-1]
+		vm.popCtx()
 		panic(x)
 	}
+}
+
+// propagate continues the unwinding if handleThrow has stopped at the frame of a finally block that was entered by
+// return() (see enterNextFinallyFrame) and not at the marker frame: the exception replaces the pending return.
+// Returns nil if the exception has been caught by the body (which has to be run further).
+func (g *generator) propagate(ex *Exception) *Exception {
+	for ex != nil && len(g.vm.tryStack) > int(g.tryStackLen) {
+		g.vm.popTryFrame()
+		ex = g.vm.handleThrow(ex)
+	}
+	return ex
 }
 
 func (g *generator) next(v Value) (Value, resultType, *Exception) {
@@ -900,14 +924,7 @@ func (g *generator) next(v Value) (Value, resultType, *Exception) {
 func (g *generator) nextThrow(v interface{}) (Value, resultType, *Exception) {
 	g.enterNext()
 	defer g.leaveOnPanic()
-	ex := g.vm.handleThrow(v)
-	if ex != nil && len(g.vm.tryStack) > int(g.tryStackLen) {
-		// Stopped at the frame of a finally block that was entered by return() (see enterNextFinallyFrame),
-		// not at the marker frame: the exception replaces the pending return and propagates further.
-		g.returning = nil
-		g.vm.popTryFrame()
-		ex = g.vm.handleThrow(ex)
-	}
+	ex := g.propagate(g.vm.handleThrow(v))
 	if ex != nil {
 		g.vm.popTryFrame()
 		g.vm.popCtx()
@@ -918,6 +935,26 @@ func (g *generator) nextThrow(v interface{}) (Value, resultType, *Exception) {
 	g.vm.popTryFrame()
 	g.vm.popCtx()
 	return res, resType, ex
+}
+
+// ret resumes the body with a return completion (g.returning): closes the iterators and runs the finally blocks.
+func (g *generator) ret() (res Value, resType resultType, ex *Exception) {
+	g.enterNext()
+	defer g.leaveOnPanic()
+	vm := g.vm
+	canContinue, ex := g.enterNextFinallyFrame()
+	if canContinue {
+		res, resType, ex = g.step()
+	} else if ex == nil {
+		// there are no finally blocks
+		res = g.returning
+		ex = vm.restoreStacks(g.iterStackLen, g.refStackLen)
+		vm.callStack = vm.callStack[:len(vm.callStack)-1]
+		vm.sp = vm.sb - 1
+	}
+	vm.popTryFrame()
+	vm.popCtx()
+	return
 }
 
 func (g *generatorObject) init(vmCall func(*vm, int), nArgs int) {
@@ -1093,32 +1130,7 @@ func (g *generatorObject) _return(v Value) Value {
 
 	g.gen.returning = v
 	g.state = genStateExecuting
-	g.gen.enterNext()
-	canContinue := g.gen.enterNextFinallyFrame()
-	if !canContinue {
-		vm := g.gen.vm
-		g.state = genStateCompleted
-
-		vm.popTryFrame()
-
-		ex := vm.restoreStacks(g.gen.iterStackLen, g.gen.refStackLen)
-
-		if ex != nil {
-			panic(ex)
-		}
-
-		vm.callStack = vm.callStack[:len(vm.callStack)-1]
-		vm.sp = vm.sb - 1
-		vm.popCtx()
-
-		return g.val.runtime.createIterResultObject(v, true)
-	}
-	res, done, ex := g.gen.step()
-	vm := g.gen.vm
-	vm.popTryFrame()
-	vm.popCtx()
-
-	return g.step(res, done, ex)
+	return g.step(g.gen.ret())
 }
 
 func (f *baseJsFuncObject) generatorCall(vmCall func(*vm, int), nArgs int) Value {
